@@ -1561,6 +1561,88 @@ class BytesIOModel:
         return None
 
 
+class SingleDispatch:
+    """functools.singledispatch(f): the implementation registered for the nearest class in the MRO of the first argument's type, f itself
+    for everything else.  Registrations are the `@f.register(...)` / `@f.register` decorations and `f.register(T, g)` calls at module level
+    of the module that defines f (they run at import time; the defs they decorate are usually all called `_`)"""
+    not_none = True
+
+    def __init__(self, it, f):
+        from .front import FuncRef
+        self.f, self.table = f, []         # [(type value, FuncRef)]
+        mod = it.prog.modules.get(f.module)
+        from .interp import Frame
+        for st in (mod.tree.body if mod is not None else []):
+            if isinstance(st, (ast.FunctionDef,)):
+                g = FuncRef(st, f.module)
+                for d in st.decorator_list:
+                    core = d.func if isinstance(d, ast.Call) else d
+                    if isinstance(core, ast.Attribute) and core.attr == 'register' and isinstance(core.value, ast.Name) and core.value.id == f.name:
+                        if isinstance(d, ast.Call) and d.args:
+                            for a in d.args[:1]:
+                                self.table.append((it.ev(a, Frame(f.module)), g))
+                        else:
+                            ann = st.args.args[0].annotation if st.args.args else None
+                            if ann is None:
+                                raise Fail(f'{f.name}.register on a function without an annotated first parameter')
+                            self.table.append((it.ev(ann, Frame(f.module)), g))
+            elif isinstance(st, ast.Expr) and isinstance(st.value, ast.Call) and isinstance(st.value.func, ast.Attribute) and st.value.func.attr == 'register' \
+                    and isinstance(st.value.func.value, ast.Name) and st.value.func.value.id == f.name and len(st.value.args) == 2:
+                self.table.append((it.ev(st.value.args[0], Frame(f.module)), it.ev(st.value.args[1], Frame(f.module))))
+
+    def abs_key(self):
+        return ('singledispatch', self.f.qual)
+
+    def abs_attr(self, it, a, n):
+        if a == 'register':
+            def register(it_, args, kw, node):
+                if len(args) == 2:
+                    self.table.append((args[0], args[1]))
+                    return args[1]
+                ty = args[0]
+
+                def deco(it2, a2, k2, n2):
+                    self.table.append((ty, a2[0]))
+                    return a2[0]
+                return Native(deco, 'singledispatch.register(type)')
+            return Native(register, 'singledispatch.register')
+        if a in ('__name__', '__qualname__'):
+            return K(self.f.name)
+        if a == '__wrapped__':
+            return self.f
+        if a == 'dispatch':
+            return Native(lambda it_, args, kw, node: self.pick_for_type(it_, args[0]), 'singledispatch.dispatch')
+        return None
+
+    def type_chain(self, it, v):
+        """the classes of v from most to least specific, as abstract class values"""
+        t = builtin(it, 'type', [v], {}, None)
+        from .front import ClassRef
+        if isinstance(t, ClassRef):
+            chain = list(it.prog.mro(t))
+            ext = it.prog.ext_bases(t)
+            return chain + [Builtin(b) if b in ('int', 'str', 'bytes', 'bytearray', 'list', 'dict', 'tuple', 'set', 'object') else Ext(b) for b in ext] + [Builtin('object')]
+        if isinstance(t, Builtin):
+            py = _TYPES.get(t.name)
+            if py is not None:
+                return [Builtin(c.__name__) for c in py.__mro__]
+            return [t, Builtin('object')]
+        raise Fail(f'singledispatch on a value whose type is not known: {vrepr(v)[:40]}')
+
+    def pick(self, it, v):
+        for c in self.type_chain(it, v):
+            for ty, g in self.table:
+                if it.vkey(ty) == it.vkey(c) or (isinstance(ty, Ext) and isinstance(c, Ext) and ty.dotted.split('.')[-1] == c.dotted.split('.')[-1]) \
+                        or (isinstance(c, Ext) and getattr(ty, 'name', None) == c.dotted.split('.')[-1]):
+                    return g
+        return self.f
+
+    def abs_call(self, it, args, kw, n):
+        if not args:
+            raise RaiseEx('TypeError', f'{self.f.name} requires at least 1 positional argument')
+        return it.call(self.pick(it, args[0]), list(args), dict(kw), n)
+
+
 class MemoFn:
     """functools.lru_cache(...)(f): the result of an earlier call with equal arguments is returned again - equality being the arguments'
     own __eq__, as the cache's dictionary lookup decides it; distinct symbolic arguments denote distinct keys"""
@@ -2731,6 +2813,15 @@ def builtin(it, name, args, kw, n):
             return Builtin('bytes')
         if isinstance(v, Term) and v.op in ('fstr', 'hex', 'decode', 'strfmt'):
             return Builtin('str')
+        if isinstance(v, Term) and (v.op in ('int2', 'int', 'ba2int', 'from_bytes', 'len', 'count', 'mod2', 'mod2x', '+', '-', '*', '//', '%', '<<', '>>', '&', '|', '^', '**',
+                                             'unaryUSub', 'unaryInvert', 'abs') or getattr(v, 'bounds', None) is not None):
+            return Builtin('int')
+        if isinstance(v, Term) and v.op in ('bool', 'bit', 'unaryNot'):
+            return Builtin('bool' if v.op != 'bit' else 'int')
+        if isinstance(v, BinText):
+            return Builtin('str')
+        if isinstance(v, BA):
+            return Ext('bitarray.bitarray')
         if type(v).__name__ == 'Rope':
             return Builtin('bytes')
         return Term('type', v)
